@@ -481,6 +481,20 @@ class History:
             prog = f"(restore_prog {g_policy(step.get('band'))} {g_keep(step)})"
             summ, kind = "rsum", "restore"
             mode = 3
+            # the block cache of the implementation holds 100 blocks (LRU); the model's is unbounded: a block read again
+            # after it was evicted is the same successful read once more, and is counted once
+            seen_blocks, kept = set(), []
+            for it in (res.get("trace") or []):
+                if it.get("verb") == "Read" and str(it.get("path", "")).startswith("d/") and (it.get("reply") or {}).get("ok"):
+                    if it["path"] in seen_blocks:
+                        continue
+                    seen_blocks.add(it["path"])
+                kept.append(it)
+            if len(kept) != len(res.get("trace") or []):
+                res = dict(res, trace=kept)
+                tr = g_trace(kept, self.names)
+                if any(t is None for t in tr):
+                    tr = [t for t in tr if t is not None]
         elif op == "validate":
             hint = hint_from_trace(canon_trace(res.get("trace") or []), self.names, "Read")
             prog = f"(validate_prog {gallina_bool(step.get('skip', False))} {hint})"
